@@ -19,6 +19,8 @@
 (*   custom variant A = (ratio .75, period 3, quorum .2),                   *)
 (*                  B = (ratio .25, period 1, quorum .7),                   *)
 (*   "spend" proposal = [pool -> X_p : 1, pool -> Y_p : 3] (requests 4),    *)
+(*   "small" proposal = [pool -> X_p : 1] (requests 1, below the default    *)
+(*   minimum; same message type and custom parameters as "spend"),          *)
 (*   "custom" proposal = two MsgUpdateStore writing two fresh keys,         *)
 (*   community pool 5 units,                                                *)
 (*   voters: v1 = operator of validator 0 (self 100, delegated by d 50),    *)
@@ -27,7 +29,7 @@
 EXTENDS Integers, Sequences, FiniteSets, TLC, Json
 
 CONSTANTS Submitter,   \* subset of Depositor: who submits
-          Types,       \* subset of {"text","spend","custom","mixed"} offered to Submit
+          Types,       \* subset of {"text","spend","small","custom","mixed"} offered to Submit
           ExpSet,      \* subset of BOOLEAN offered to Submit
           InitAmts,    \* initial deposits offered to Submit
           DepAmts,     \* amounts offered to Deposit
@@ -43,7 +45,7 @@ CONSTANTS Submitter,   \* subset of Depositor: who submits
           BurnPrevote, BurnQuorum, BurnVeto   \* gov params burn_proposal_deposit_prevote / burn_vote_quorum / burn_vote_veto
 
 VARIABLES nid,      \* proposals submitted so far (= last proposal id)
-          ptype,    \* [Prop -> "none" | "text" | "spend" | "custom" | "mixed"]
+          ptype,    \* [Prop -> "none" | "text" | "spend" | "small" | "custom" | "mixed"]
           phase,    \* [Prop -> "none","deposit","voting","passed","rejected","failed","dropped"]
           ex,       \* [Prop -> BOOLEAN]  expedited
           dep,      \* [Prop -> [Depositor -> Nat]] stored deposit records
@@ -72,7 +74,10 @@ Prop      == 1..MaxProp
 Min == 2      ExpMin == 4
 VoteD == 2    VoteE == 1
 QuorumD == 50
-Req == 4      Pool0 == 5
+Pool0 == 5
+SpendType == {"spend", "small"}          \* community-pool spends (one message type, two requested amounts)
+Req(t) == IF t = "spend" THEN 4 ELSE 1   \* requested: >= default/ratio or inside [default, default/ratio) depending
+                                         \* on the variant for "spend"; below the default minimum for "small"
 PV1 == 100    PD == 50    PTotal == 250
 VPeriod(v) == IF v = "A" THEN 3 ELSE 1
 VQuorum(v) == IF v = "A" THEN 20 ELSE 70
@@ -86,7 +91,8 @@ Op(name, a, p, t, e, n, dn, o, res) ==
   [name |-> name, a |-> a, p |-> p, t |-> t, e |-> e, n |-> n, dn |-> dn, o |-> o, res |-> res]
 
 Zero    == [x |-> 0, y |-> 0]
-Full(t) == CASE t = "spend" -> [x |-> 1, y |-> 3] [] t = "custom" -> [x |-> 1, y |-> 1] [] OTHER -> Zero
+Full(t) == CASE t = "spend" -> [x |-> 1, y |-> 3] [] t = "small" -> [x |-> 1, y |-> 0]
+             [] t = "custom" -> [x |-> 1, y |-> 1] [] OTHER -> Zero
 NoVotes == [v \in Voter |-> None]
 Open(ph) == ph \in {"deposit", "voting"}
 SumDep(d) == d["a"] + d["b"]
@@ -106,7 +112,7 @@ Rej(o) == /\ op' = [o EXCEPT !.res = "rej"] /\ UNCHANGED svars
 
 ---------------------------------------------------------------------------
 (* the rules of the message type *)
-CustOf(t, c) == IF t \in CustType THEN c[t] ELSE None
+CustOf(t, c) == IF t \in SpendType THEN c["spend"] ELSE IF t = "custom" THEN c["custom"] ELSE None
 
 \* minimum total deposit that starts voting: default (expedited default) unless the proposal spends
 \* from the community pool and the spend type has custom parameters with a non-zero ratio whose share
@@ -114,8 +120,9 @@ CustOf(t, c) == IF t \in CustType THEN c[t] ELSE None
 MinFor(t, e, c) ==
   LET def == IF e THEN ExpMin ELSE Min
       v   == CustOf(t, c)
-  IN IF t = "spend" /\ v # None
-        THEN LET share == (VRatio(v) * Req) \div 100 IN IF share < def THEN def ELSE share
+      pct == VRatio(v) * Req(t)       \* share of the requested amount, in percent of a unit
+  IN IF t \in SpendType /\ v # None
+        THEN IF pct < def * 100 THEN def ELSE pct \div 100
         ELSE def
 
 PeriodFor(t, e, c) == IF CustOf(t, c) # None THEN VPeriod(CustOf(t, c)) ELSE IF e THEN VoteE ELSE VoteD
@@ -228,10 +235,10 @@ TallyOne(s, p) ==
       s1   == IF conv THEN s ELSE Settle(s, p, r.burn)
       s2   == [s1 EXCEPT !.votes[p] = NoVotes, !.per[p] = 0]
   IN IF r.pass
-       THEN IF s.ptype[p] = "spend" /\ s2.pool < Req
+       THEN IF s.ptype[p] \in SpendType /\ s2.pool < Req(s.ptype[p])
               THEN [s2 EXCEPT !.phase[p] = "failed", !.timer[p] = 0]
               ELSE [s2 EXCEPT !.phase[p] = "passed", !.timer[p] = 0, !.eff[p] = Full(s.ptype[p]),
-                              !.pool = IF s.ptype[p] = "spend" THEN s2.pool - Req ELSE s2.pool]
+                              !.pool = IF s.ptype[p] \in SpendType THEN s2.pool - Req(s.ptype[p]) ELSE s2.pool]
      ELSE IF conv
        \* the code re-queues it at votingStart + DEFAULT voting period (whatever the type's custom period is)
        THEN [s2 EXCEPT !.ex[p] = FALSE, !.timer[p] = VoteD - s.per[p]]
@@ -339,7 +346,7 @@ C15_MixedRefused == [][A_C15_MixedRefused]_vars
 \* pool paid exactly the effects
 C15_MessagesAllOrNothing ==
   /\ \A p \in Prop : IF phase[p] = "passed" THEN eff[p] = Full(ptype[p]) ELSE eff[p] = Zero
-  /\ pool + SumOver({p \in Prop : ptype[p] = "spend"}, LAMBDA p : eff[p].x + eff[p].y) = Pool0
+  /\ pool + SumOver({p \in Prop : ptype[p] \in SpendType}, LAMBDA p : eff[p].x + eff[p].y) = Pool0
 
 ---------------------------------------------------------------------------
 View == svars
